@@ -201,8 +201,17 @@ func (h *harness) tornChooser() simfs.TornChooser {
 		return nil
 	}
 	return func(path string, unsynced int) (int, bool) {
-		keep := h.src.Intn(unsynced + 1)
-		garble := keep > 0 && h.src.Chance(1, 4)
+		// 0: nothing survives; otherwise a prefix, quite often all of it
+		// (a completely written but never synced tail, possibly garbled)
+		keep := 0
+		switch h.src.Intn(4) {
+		case 0:
+		case 1:
+			keep = unsynced
+		default:
+			keep = h.src.Intn(unsynced + 1)
+		}
+		garble := keep > 0 && h.src.Chance(1, 3)
 		h.ctx.Tracef("torn tail %s: %d of %d unsynced bytes survive, garbled=%t", path, keep, unsynced, garble)
 		if keep > 0 {
 			h.ctx.Count("fault.torn_tail", 1)
@@ -269,7 +278,7 @@ func (h *harness) openStep() error {
 	if h.mode == "kverr" {
 		g = h
 	}
-	db, err := openStore(h.kind, &zfs{v: h.view}, h.memtable, g, func(s *kvStore) { h.kvs = append(h.kvs, s) })
+	db, err := openStore(h.kind, newZFS(h.view), h.memtable, g, func(s *kvStore) { h.kvs = append(h.kvs, s) })
 	if err != nil {
 		return err
 	}
